@@ -296,8 +296,12 @@ func Run(tier string) {
 		runGen(run, "intro", genCfg("intro", 0, 0, "{0}", `{"st0"}`, seed, 0, "CanonicalAndEmit IntroExact"), 4)
 	} else {
 		runGen(run, "intro", genCfg("intro", 0, 0, "{0}", `{"st0"}`, seed, 0, "CanonicalAndEmit IntroExact"), 4)
-		runGen(run, "classes2", genCfg("classes", 2, 2, "{0, 1, 2, 3, 46, 47}", `{"st0","st1","st2","st3"}`, seed, 0, "CanonicalAndEmit GoodPathsAccepted"), 16)
-		runGen(run, "classes3", genCfg("classes", 3, 1, "{0, 47}", `{"st0","st2"}`, seed, 0, "CanonicalAndEmit GoodPathsAccepted"), 16)
+		// (bounds fitted to measured state counts: since malformed lines may be followed by the rest of a header the two
+		// wider instances tried first, 2 stanzas x 6 short lengths x 4 argument shapes and 3 stanzas x 2 short lengths, did
+		// not finish in 30 minutes; these three take about 1, 5 and 5 minutes)
+		runGen(run, "classes1", genCfg("classes", 1, 2, "{0, 1, 2, 3, 46, 47}", `{"st0","st1","st2","st3"}`, seed, 0, "CanonicalAndEmit GoodPathsAccepted"), 16)
+		runGen(run, "classes2", genCfg("classes", 2, 2, "{0, 47}", `{"st0","st2"}`, seed, 0, "CanonicalAndEmit GoodPathsAccepted"), 16)
+		runGen(run, "classes3", genCfg("classes", 3, 1, "{0}", `{"st0","st2"}`, seed, 0, "CanonicalAndEmit GoodPathsAccepted"), 16)
 		runGen(run, "free", genCfg("free", 0, 0, "{0}", `{"st0"}`, seed, 5, "CanonicalAndEmit"), 16)
 		runGen(run, "wf", genCfg("wf", 2, 0, "{0}", `{"st0"}`, seed, 0, "CanonicalAndEmit RoundTripInv"), 16)
 		run.Exhaustive()
